@@ -197,4 +197,17 @@ def whileS {ρ σ : Type} (cond : σ → Bool) (body : Nat → σ → Ctl ρ σ)
 
 abbrev KeepFunc := Data → Object → Except String Bool
 
+/-! `copyNode / copyWay / copyRelation` of extract.go are VOCABULARY (hand-written here, not regenerated: they are
+struct literals, `make` and indexed stores, outside the translator's subset): the copy keeps the id, the position, the
+node ids / the members `(Ref, Type)` in order, and the tags iff `keepTags`.  Tied by the call skeleton (pregen) and by the
+exact comparison of the stored objects with the document's objects on every P line (`keepTags` true and false). -/
+
+/-- `copyNode` of extract.go -/
+def copyNode (n : Node) (keepTags : Bool) : Node := ⟨n.ID, n.Lat, n.Lon, if keepTags then n.Tags else []⟩
+/-- `copyWay` of extract.go -/
+def copyWay (w : OsmWay) (keepTags : Bool) : Way := ⟨w.ID, w.Nodes.map (·.ID), if keepTags then w.Tags else []⟩
+/-- `copyRelation` of extract.go -/
+def copyRelation (r : Relation) (keepTags : Bool) : Relation :=
+  ⟨r.ID, r.Members.map (fun m => ⟨m.Ref, m.Typ⟩), if keepTags then r.Tags else []⟩
+
 end GeomV.C18.Gen
